@@ -24,6 +24,10 @@ def routing_families(prop, tier, seed, mc):
     if tier != 'thorough':
         disp, rest = disp[:1500], rest[:3500]
     stims = [{'class': 'tlc_table', 'reg': r['reg'], 'path': r['path'], 'via': 'builder' if i % 2 else 'routes'} for i, r in enumerate(disp + rest)]
+    # a fifth of the requests (and a few of those that dispatch) keep their body open after the message: the caller has not half-closed
+    for i, st in enumerate(stims):
+        if (i >= len(disp) and i % 5 == 3) or (i < len(disp) and i % 100 == 7):
+            st['body'] = 'open'
     # the same table through tonic::transport::Server's router: add_service / add_optional_service(Some) for the registered
     # names, add_optional_service(None) for others at random positions, served over a pipe to a bare h2 client
     names = ['a.S', 'a.S2', 'S', 'a.b.S', 'a.s']
@@ -39,6 +43,8 @@ def routing_families(prop, tier, seed, mc):
             k = rnd.randint(1, len(r['reg']))
             plan = [{'name': '', 'how': 'routes', 'names': r['reg'][:k]}] + [st for st in plan if st['name'] not in r['reg'][:k]]
         plans.append({'class': 'server_plan', 'reg': r['reg'], 'plan': plan, 'path': r['path'], 'via': 'server'})
+        if not r['dispatches'] and len(plans) % 4 == 1:
+            plans[-1]['body'] = 'open'
     return [('routing_table', stims), ('server_plans', plans)]
 
 
